@@ -90,6 +90,13 @@ class Gen:
         name = self.name()
         ign = r.random() < 0.12
         threads = r.choice(THREADS)
+        # thread lists containing 0 / P / 16 start that many real threads per sample: keep them to about a tenth
+        # of the benchmarks (each form still occurs in every run and in the corpus) so that the quick tier stays
+        # fast on a loaded or smaller machine
+        big = any(t in ("0", "P", "16") for t in threads.split(","))
+        if big and r.random() < 0.8:
+            threads = r.choice([t for t in THREADS if not any(x in ("0", "P", "16") for x in t.split(","))])
+            big = False
         counters = [k + str(r.choice([1, 3, 64, 1000, 1024, 10**6, 123456789])) for k in "bci" if r.random() < 0.25]
         args = "P"
         if r.random() < 0.3:
@@ -101,6 +108,8 @@ class Gen:
             sc = "-"
         else:
             sc = r.choice(["d", "1", "2", "3", "5", "7", "10", "12", "100", "1000"]) if action == "bench" else r.choice(["d", "1", "3", "100"])
+            if big:
+                sc = r.choice(["1", "2", "3", "5"])
         mag = r.choice([1, 7, 50, 999, 1000, 12345, 10**6, 10**9, 5 * 10**11, 10**13])
         lo = max(1, mag)
         span = r.choice([1, 1, 2, 7, max(1, lo // 3), lo])
@@ -203,7 +212,7 @@ def nontrivial(case, model):
 
 
 def streams(tier, rng):
-    n = 1000 if tier == "quick" else 20000
+    n = 700 if tier == "quick" else 20000
     g = Gen(rng)
     cases = corpus_cases()
     seen = set(cases)
@@ -224,7 +233,7 @@ def streams(tier, rng):
     filtered = [c for c in corpus_cases() if " X " in c]
     seenf = set(filtered)
     tries = 0
-    while len(filtered) < (300 if tier == "quick" else 6000) and tries < 200000:
+    while len(filtered) < (200 if tier == "quick" else 6000) and tries < 200000:
         tries += 1
         gf.id = 0
         gf.nodes = 0
